@@ -301,11 +301,14 @@ def c11_fitter_partial_node(f, replay):
     does the same.  Class: that exception from a replace-family operation, and such a node exists on the end spine."""
     if "contentMatchAt" not in str(replay.get("what", "")):
         return False
-    if replay.get("op") not in ("replace", "replace_range", "replace_with", "insert", "replace_range_with"):
+    if replay.get("op") not in ("replace", "replace_range", "replace_with", "insert", "replace_range_with") and \
+            replay.get("kind") not in ("drop_point-fails", "insert_point-fails"):
         return False
     from prosemirror.model import Slice
     schema = _schema_of(replay)
     sls = [a for a in (replay.get("args") or []) if isinstance(a, dict) and ("openStart" in a or "openEnd" in a)]
+    if isinstance(replay.get("slice"), dict):
+        sls.append(replay["slice"])
     if not sls:
         return False
     sl = Slice.from_json(schema, sls[0])
